@@ -136,6 +136,9 @@ def is_ws(b):
 def m_trim_end(ex, args, callee):
     s = dv(args[0])
     if isinstance(s, str): return s.rstrip()
+    if not isinstance(s, SB):
+        from mirsym.models import m_str_trim_opaque
+        return m_str_trim_opaque(ex, args, 'trim_end')
     bs = list(s.bs)
     while bs and ex.truth(is_ws(bs[-1])): bs.pop()
     return SB(bs)
@@ -144,12 +147,18 @@ def m_trim_end(ex, args, callee):
 def m_trim_start(ex, args, callee):
     s = dv(args[0])
     if isinstance(s, str): return s.lstrip()
+    if not isinstance(s, SB):
+        from mirsym.models import m_str_trim_opaque
+        return m_str_trim_opaque(ex, args, 'trim_start')
     bs = list(s.bs)
     while bs and ex.truth(is_ws(bs[0])): bs.pop(0)
     return SB(bs)
 
 
 def m_trim(ex, args, callee):
+    if not isinstance(dv(args[0]), (SB, str)):
+        from mirsym.models import m_str_trim_opaque
+        return m_str_trim_opaque(ex, args, 'trim')
     return m_trim_end(ex, [m_trim_start(ex, args, callee)], callee)
 
 
